@@ -453,6 +453,9 @@ def narrow_count_case(ctx, index, rng: random.Random):
         except (ValueError, OverflowError, TypeError):
             rec.case(["ctor", which], True, cls=f"narrow/ctor/{which}/refused")
             return
+        except Exception as ex:
+            rec.fail(monitor="C13.rules", op=f"constructor/{which}", symptom=f"the constructor raised {type(ex).__name__} (neither a result nor a refusal)", diff=["raised"], detail={"error": str(ex)[:140]})
+            return
         with attach.quiet():
             gf, ge = np.asarray(h.frequencies, dtype=float), np.asarray(h.errors2, dtype=float)
             if not (np.array_equal(gf, np.asarray(given_f, dtype=float)) and np.array_equal(ge, np.asarray(given_e, dtype=float))):
@@ -467,7 +470,43 @@ def narrow_count_case(ctx, index, rng: random.Random):
     d = rng.choice([1, 1, 2])
     start = top - rng.randint(0, 40)
     k = rng.randint(1, 80)
-    how = rng.choice(["fill_n", "fill_n", "fill", "fill_numpy_weight", "fill_n_int_weights"])
+    how = rng.choice(["fill_n", "fill_n", "fill", "fill_numpy_weight", "fill_n_int_weights", "fill_n_outside"])
+    if how == "fill_n_outside":
+        # the counter of missed values is what comes close to the top of the type: a batch with values inside and outside is booked as a
+        # whole (widening the type) or refused as a whole
+        try:
+            if d == 1:
+                h = Histogram1D(np.array([0.0, 1.0, 2.0]), np.array([5, 3], dtype=dt), overflow=start)
+                pts = np.concatenate([np.full(k, 7.5), np.full(4, 0.5)])
+            else:
+                h = Histogram2D([np.array([0.0, 1.0, 2.0]), np.array([0.0, 1.0])], np.array([[5], [3]], dtype=dt), missed=start)
+                pts = np.concatenate([np.full((k, 2), 7.5), np.full((4, 2), 0.5)])
+            with attach.quiet():
+                s_before = snap.snapshot(h)
+            raised = None
+            try:
+                with warnings.catch_warnings():
+                    warnings.simplefilter("ignore")
+                    h.fill_n(pts)
+            except Exception as ex:
+                raised = ex
+            with attach.quiet():
+                f = np.asarray(h.frequencies).ravel()
+                missed_now = float(h.overflow) if d == 1 else float(h.missed)
+                if raised is not None:
+                    rec.mon("C18.world.atomicity")
+                    dd = snap.diff(s_before, snap.snapshot(h), ignore=("dtype",))
+                    if dd:
+                        rec.fail(prop="C18", monitor="C18.world.atomicity", op=how, symptom=f"fill_n raised {type(raised).__name__} after part of the batch had been booked", diff=sorted(dd),
+                                 detail={"dtype": dt, "dim": d, "error": str(raised)[:120], "frequencies": f.tolist(), "missed": missed_now})
+                elif int(f[0]) != 9 or missed_now != start + k:
+                    rec.fail(monitor="C13.rules", op=how, symptom="counts added to a compact integer histogram wrapped around (or were lost) instead of widening the content type", diff=["frequencies", "missed"],
+                             detail={"dtype_before": dt, "dtype_after": str(h.dtype), "start": start, "added": k, "frequencies": f.tolist(), "missed": missed_now, "dim": d})
+        except Exception as ex:
+            rec.monitor_error("C13.narrow_count_case", ex)
+            return
+        rec.case(["narrow", dt, d, start, k, how], start + k > top, cls=f"narrow/{dt}/{d}d/{how}/{'raised' if raised is not None else np.dtype(h.dtype)}")
+        return
     try:
         if d == 1:
             h = Histogram1D(np.array([0.0, 1.0, 2.0]), np.array([start, 3], dtype=dt))
